@@ -230,6 +230,12 @@ def _run(a, pid, tier, seed, t0):
                 unmatched.append((c, ei))
         if unmatched:
             violations.append((prog, trace_by_id[tid_], unmatched))
+    # a model history whose fresh-process file was never compared with the history's (the two did not denote the same Canon): the
+    # replay harness and the trace specification disagree about the specification - reported as drift, never silently vacuous
+    for tid_, v in verdicts.items():
+        if byid[tid_].get('meta', {}).get('kind') == 'writehist' and v['cnt'].get('cmp', 0) == 0 \
+                and not any(c in ('C15.Writable',) for c, _ in v['clauses']):
+            drift.append(f"WriteHistory: scenario {tid_}: the file of the fresh process was not compared with the file of the history (different Canon)")
     wall = time.time() - t0
     out_lines = []
     for k in known_seen.values():
